@@ -26,7 +26,7 @@ def gen_graph(rng, n_max):
     elif labels_kind == "str":
         nodes = ["n%d" % i if i else "" for i in rng.sample(range(n + 3), n)]
     else:
-        nodes = rng.sample([()] * 1 + [(x, y) for x in range(3) for y in range(3)], n)
+        nodes = rng.sample([()] * 1 + [(x, y) for x in range(4) for y in range(4)], n)
     acts = ["a", "b", "c", "d"][:rng.randint(1, 4)]
     dens = rng.choice([0.3, 0.6, 1.0])
     edges = {}
